@@ -34,4 +34,54 @@ theorem update1_eq (p : PBar) (s : F) (pos : Pos) (i : Nat) : update1 p s pos i 
   unfold update1 PBar.update1
   simp only [new2best_eq]
 
+/-- `no_change` as written (early returns, the two tolerance blocks, the zero-baseline guard) is the model's `noChange` -/
+theorem no_change_eq (flv : Flavour) (scores : List F) (es : Early) : no_change flv scores es = noChange flv scores es := by
+  unfold no_change noChange noChangeTail
+  cases hn : es.n with
+  | none => rfl
+  | some n =>
+    simp only [bind, Except.bind, pure, Except.pure, decide_eq_true_eq]
+    by_cases hlen : scores.length ≤ n
+    · simp [hlen]
+    · simp only [hlen, if_false]
+      cases hm : pyMax scores with
+      | error e => rfl
+      | ok ms =>
+        simp only
+        by_cases hd : scores.length - npArgmax scores > n
+        · simp [hd]
+        · simp only [hd, if_false]
+          cases hf : pyMax (scores.take (scores.length - n)) with
+          | error e => rfl
+          | ok mf =>
+            simp only
+            cases hta : es.tolAbs with
+            | some ta =>
+              simp only
+              by_cases hhit : F.lt (F.abs (F.sub mf ms)) ta = true
+              · simp [hhit]
+              · simp only [hhit, Bool.false_eq_true, if_false]
+                cases htr : es.tolRel with
+                | none => rfl
+                | some tr =>
+                  simp only
+                  by_cases hb : F.beq (F.abs mf) F.zero = true
+                  · simp [hb]
+                  · simp only [hb, Bool.not_false, Bool.false_eq_true, if_true, if_false]
+                    cases hq : F.div flv (F.sub ms mf) (F.abs mf) with
+                    | error e => simp
+                    | ok q => by_cases hl : F.lt (F.mul q (F.ofInt 100)) tr = true <;> simp [hl]
+            | none =>
+              simp only [Bool.false_eq_true, if_false]
+              cases htr : es.tolRel with
+              | none => rfl
+              | some tr =>
+                simp only
+                by_cases hb : F.beq (F.abs mf) F.zero = true
+                · simp [hb]
+                · simp only [hb, Bool.not_false, Bool.false_eq_true, if_true, if_false]
+                  cases hq : F.div flv (F.sub ms mf) (F.abs mf) with
+                  | error e => simp
+                  | ok q => by_cases hl : F.lt (F.mul q (F.ofInt 100)) tr = true <;> simp [hl]
+
 end GFO.Gen.Stp
